@@ -74,6 +74,9 @@ def main():
                     r = results[prop]
                     if r.returncode == 0:
                         print("EQUIV %-45s %s silent" % (m["name"], prop))
+                    elif prop in m.get("known_false_alarm", {}):
+                        # an unresolved false alarm of an idiom-bound rule (DESIGN 7a): shown, not counted, never hidden
+                        print("EQUIV %-45s %s KNOWN FALSE ALARM - %s" % (m["name"], prop, m["known_false_alarm"][prop]))
                     else:
                         bad += 1
                         lines = [ln for ln in r.stdout.splitlines() if ln.startswith(("VIOLATION", "CHECKER-BROKEN", "   rule", "error"))]
